@@ -405,7 +405,14 @@ impl<'a> DataRowIteratorTestData<'a> {
                     EntryIndex::Entry {
                         entry_index,
                         signal_index: _,
-                    } => row_result.entries[*entry_index] = DataEntry::X,
+                    } => {
+                        // The `<name>_out` column of a bidirectional signal can at the same time
+                        // be the column of an input that is itself called `<name>_out`:
+                        // such an entry still has to be driven
+                        if !self.entry_is_input(*entry_index) {
+                            row_result.entries[*entry_index] = DataEntry::X
+                        }
+                    }
                     EntryIndex::Default { signal_index: _ } => continue,
                 }
             }
